@@ -568,7 +568,20 @@ func doMatchStruct(vt reflect.Type, def string, i *int, tv *string) (bool, error
 	/* anonymous struct, there is no name to match: any identifier will do,
 	 * except the keyword of another type, which contradicts the Go type */
 	if tn == "" && vt.Kind() == reflect.Struct {
-		return !isTypeKeyword(*tv), nil
+		if tok != "." {
+			return !isTypeKeyword(*tv), nil
+		}
+
+		/* package-qualified like a named struct: the name follows the "." */
+		if *tv, err = readToken(def, &sp, false); err != nil {
+			return false, err
+		} else if !isident0((*tv)[0]) {
+			return false, ESyntax(sp, def, "struct name expected")
+		}
+
+		/* update parsing position */
+		*i = sp
+		return true, nil
 	}
 
 	/* just a simple type with no qualifiers */
